@@ -38,6 +38,11 @@ impl<'a> Ps<'a> {
         }
         std::str::from_utf8(&self.s[st..self.i]).ok()?.parse().ok()
     }
+    pub fn inum(&mut self) -> Option<i64> {
+        let neg = self.eat(b'-').is_some();
+        let n = self.num()? as i64;
+        Some(if neg { -n } else { n })
+    }
     pub fn done(&self) -> bool {
         self.i == self.s.len()
     }
@@ -134,6 +139,47 @@ num_leaf!(Max, u8, "mx8", u8::MIN, u8::MAX);
 num_leaf!(Min, u8, "mn8", u8::MAX, u8::MIN);
 num_leaf!(Max, u32, "mx32", u32::MIN, u32::MAX);
 num_leaf!(Min, u32, "mn32", u32::MAX, u32::MIN);
+
+macro_rules! int_leaf {
+    ($w:ident, $t:ty, $d:expr, $bot:expr, $top:expr) => {
+        impl Codec for $w<$t> {
+            fn desc() -> String {
+                $d.into()
+            }
+            fn kind() -> &'static str {
+                stringify!($w)
+            }
+            fn parse(p: &mut Ps) -> Option<Self> {
+                let n = p.inum()?;
+                <$t>::try_from(n).ok().map($w::new)
+            }
+            fn show(&self) -> String {
+                self.as_reveal_ref().to_string()
+            }
+            fn spec_bot(&self) -> bool {
+                *self.as_reveal_ref() == $bot
+            }
+            fn spec_top(&self) -> bool {
+                *self.as_reveal_ref() == $top
+            }
+            fn pool() -> Vec<Self> {
+                vec![$w::new(<$t>::MIN), $w::new(<$t>::MAX), $w::new(0), $w::new(-1)]
+            }
+            fn generate(rng: &mut Rng, big: bool) -> Self {
+                let c: [$t; 7] = [<$t>::MIN, <$t>::MIN + 1, -1, 0, 1, <$t>::MAX - 1, <$t>::MAX];
+                if big && rng.chance(1, 3) {
+                    $w::new((rng.next_u64() as i64 % (<$t>::MAX as i64 + 1)) as $t)
+                } else {
+                    $w::new(*rng.pick(&c))
+                }
+            }
+        }
+    };
+}
+int_leaf!(Max, i8, "mxi8", i8::MIN, i8::MAX);
+int_leaf!(Min, i8, "mni8", i8::MAX, i8::MIN);
+int_leaf!(Max, i32, "mxi32", i32::MIN, i32::MAX);
+int_leaf!(Min, i32, "mni32", i32::MAX, i32::MIN);
 
 macro_rules! bool_leaf {
     ($w:ident, $d:expr, $bot:expr) => {
